@@ -11,6 +11,8 @@
  *   FCV_KILL   K:before | K:after    _exit(137) just before / after the K-th relevant mutating call
  *   FCV_PAUSE  CLASS:K:FIFO_OUT:FIFO_IN   at the K-th relevant call of CLASS (R|M|O = open for read)
  *              write one byte to FIFO_OUT and block until a byte arrives on FIFO_IN
+ *   FCV_NOATIME_EPERM=1   every open of a relevant file with O_NOATIME fails with EPERM, as it does for a
+ *              user who is neither the owner of the file nor privileged (the file itself stays readable)
  *   FCV_JITTER=SEED   schedule perturbation: at every relevant call a pseudo-random function of (SEED, call
  *              sequence number, thread id) decides to yield the CPU or to sleep 0-1500 us first
  *   FCV_FICLONE_EMULATE=1   answer ioctl(FICLONE) by copying the source bytes over the destination
@@ -58,6 +60,7 @@ static atomic_long mut_count = 0;
 static atomic_long read_count = 0;
 static atomic_long openr_count = 0;
 static unsigned long jitter_seed = 0;
+static int noatime_eperm = 0;
 static long kill_k = -1;
 static int kill_after = 0;
 static char pause_class = 0;
@@ -98,6 +101,7 @@ static int errno_of(const char *s) {
     if (!strcmp(s, "EEXIST")) return EEXIST;
     if (!strcmp(s, "EINVAL")) return EINVAL;
     if (!strcmp(s, "ENOTDIR")) return ENOTDIR;
+    if (!strcmp(s, "EMLINK")) return EMLINK;
     return atoi(s) ? atoi(s) : EIO;
 }
 
@@ -120,6 +124,8 @@ static void init(void) {
     if (l && *l) log_fd = syscall(SYS_openat, AT_FDCWD, l, O_WRONLY | O_CREAT | O_APPEND | O_CLOEXEC, 0644);
     const char *e = getenv("FCV_FICLONE_EMULATE");
     ficlone_emulate = e && *e == '1';
+    const char *na = getenv("FCV_NOATIME_EPERM");
+    noatime_eperm = na && *na == '1';
     const char *j = getenv("FCV_JITTER");
     if (j && *j) jitter_seed = strtoul(j, NULL, 10) * 2654435761UL + 1;
     const char *k = getenv("FCV_KILL");
@@ -373,6 +379,12 @@ static int open_common(const char *fn, int dirfd, const char *path, int flags, m
     }
     int wr = is_write_open(flags);
     char cls = wr ? 'M' : 'R';
+    if (noatime_eperm && (flags & O_NOATIME)) {
+        long s0 = atomic_fetch_add(&seq, 1) + 1;
+        logcall(s0, cls, fn, ap, NULL, -1, EPERM, "NOATIME-EPERM");
+        errno = EPERM;
+        return -1;
+    }
     if (!wr && !(flags & O_DIRECTORY)) {
         long ok = atomic_fetch_add(&openr_count, 1) + 1;
         if (pause_class == 'O' && ok == pause_k) do_pause();
